@@ -176,8 +176,16 @@ class C17(Prop):
         if not ok(want_cagr, a['cagr'], 1e-8):
             F.append('CAGR %s, final cumulative return ^ (periods / observations) - 1 = %s' % (a['cagr'], want_cagr))
         fr_ = [float(x) for x in rets]
-        mean = sum(rets) / n
-        var = sum((x - mean) ** 2 for x in rets) / n
+        def moments(xs):
+            # exact for short series; long series of float-valued curves in compensated float arithmetic (accurate
+            # to ~1e-15, far inside the tolerances below - the exact rationals of 700 float ratios are enormous)
+            if len(xs) <= 40:
+                m_ = sum(xs) / len(xs)
+                return m_, sum((x - m_) ** 2 for x in xs) / len(xs)
+            fx = [float(x) for x in xs]
+            m_ = math.fsum(fx) / len(fx)
+            return Fraction(m_), Fraction(math.fsum((x - m_) ** 2 for x in fx) / len(fx))
+        mean, var = moments(rets)
         degenerate = False
         if 0 < var < Fraction(1, 10**12):
             j.knife += 1          # (near-)constant returns: the ratio is dominated by rounding noise
@@ -188,8 +196,7 @@ class C17(Prop):
                 F.append('Sharpe %s, sqrt(periods) x mean / population std = %s' % (a['sharpe'], want))
         neg = [x for x in rets if x < 0]
         if neg:
-            mneg = sum(neg) / len(neg)
-            vneg = sum((x - mneg) ** 2 for x in neg) / len(neg)
+            mneg, vneg = moments(neg)
             if 0 < vneg < Fraction(1, 10**12):
                 j.knife += 1
                 degenerate = True
